@@ -29,8 +29,9 @@ TYPINGS = {  # name -> {param: (type, ref)}
     "Z": {"a": ("Z", False), "b": ("Z", False)}, "T": {"a": ("T", False), "b": ("T", False)}, "ZT": {"a": ("Z", False), "b": ("T", False)},
     "TZ": {"a": ("T", False), "b": ("Z", False)}, "Zr": {"a": ("Z", True), "b": ("Z", False)}, "Tr": {"a": ("T", True), "b": ("Z", True)},
     "G": {"a": ("G", False), "b": ("G", False)}, "GZ": {"a": ("G", False), "b": ("Z", False)},
+    "C": {"a": ("C", False), "b": ("C", False)}, "Cr": {"a": ("C", True), "b": ("Z", False)},
 }
-TN = {"Z": "Zahl", "T": "Text", "G": "T"}
+TN = {"Z": "Zahl", "T": "Text", "G": "T", "C": "Buchstabe"}
 
 
 def variants():
@@ -54,7 +55,7 @@ def render_fn(name, pn, tn, public=False):
         t, ref = ty[p]
         if not ref:
             return TN[t]
-        return {"Z": "Zahlen Referenz", "T": "Text Referenz", "G": "T Referenz"}[t]
+        return {"Z": "Zahlen Referenz", "T": "Text Referenz", "G": "T Referenz", "C": "Buchstaben Referenz"}[t]
     if len(params) == 1:
         ps = "mit dem Parameter %s vom Typ %s" % (params[0], ptype(params[0]))
     else:
@@ -77,11 +78,16 @@ def aliases_of(name, pn, tn):
 
 
 ARGS = {  # form -> (type -> source text maker(id))
-    "lit": {"Z": lambda i: str(10 + i), "T": lambda i: '"s%d"' % i},
+    "lit": {"Z": lambda i: str(10 + i), "T": lambda i: '"s%d"' % i, "C": lambda i: "'%d'" % i},
     "neg": {"Z": lambda i: "-%d" % (10 + i)},
     "group": {"Z": lambda i: "(%d plus 1)" % (10 + i), "T": lambda i: '("s%d" verkettet mit "x")' % i},
-    "var": {"Z": lambda i: "vz%d" % i, "T": lambda i: "vt%d" % i},
+    "var": {"Z": lambda i: "vz%d" % i, "T": lambda i: "vt%d" % i, "C": lambda i: "vc%d" % i},
     "groupvar": {"Z": lambda i: "(vz%d)" % i, "T": lambda i: "(vt%d)" % i},
+    # assignables that are not plain names: an element of a list, a field of a Kombination (both may be passed by Referenz) ...
+    "elem": {"Z": lambda i: "(lz%d an der Stelle 1)" % i, "T": lambda i: "(lt%d an der Stelle 1)" % i, "C": lambda i: "(lc%d an der Stelle 1)" % i},
+    "field": {"Z": lambda i: "(zahl von p%d)" % i, "T": lambda i: "(wort von p%d)" % i},
+    # ... and a character of a Text: a Buchstabe, but NOT something a Buchstaben Referenz can point to
+    "textchar": {"C": lambda i: "(vt%d an der Stelle 1)" % i},
 }
 ARGTEXT = {}   # text as the AST dump shows it -> id, filled per program
 
@@ -143,7 +149,12 @@ def run(tier):
     jobs, metas = [], []
     for pi, pop in enumerate(pops):
         imported = pi % 3 == 2 and len(pop) > 1        # every third population: the first function lives in an imported module
-        lines = ["Die Zahl vz1 ist 1.", "Die Zahl vz2 ist 2.", 'Der Text vt1 ist "a".', 'Der Text vt2 ist "b".', "Der Wahrheitswert erg ist wahr.", ""]
+        lines = ["Die Zahl vz1 ist 1.", "Die Zahl vz2 ist 2.", 'Der Text vt1 ist "a".', 'Der Text vt2 ist "b".', "Der Buchstabe vc1 ist 'x'.", "Der Buchstabe vc2 ist 'y'.",
+                 "Die Zahlen Liste lz1 ist eine Liste, die aus 1, 2 besteht.", "Die Zahlen Liste lz2 ist eine Liste, die aus 3, 4 besteht.",
+                 'Die Text Liste lt1 ist eine Liste, die aus "a", "b" besteht.', 'Die Text Liste lt2 ist eine Liste, die aus "c", "d" besteht.',
+                 "Die Buchstaben Liste lc1 ist eine Liste, die aus 'a', 'b' besteht.", "Die Buchstaben Liste lc2 ist eine Liste, die aus 'c', 'd' besteht.",
+                 "Wir nennen die Kombination aus", "\tder Zahl zahl mit Standardwert 1,", '\tdem Text wort mit Standardwert "w",', "einen Paar, und erstellen sie so:", '\t"ein leerer Paar"',
+                 "Der Paar p1 ist ein leerer Paar.", "Der Paar p2 ist ein leerer Paar.", "Der Wahrheitswert erg ist wahr.", ""]
         files = {}
         aliases = []
         order = list(pop)
@@ -236,7 +247,7 @@ def run(tier):
                 dict(aliases=pop, site=site, got=recs[i]["got"], files=idx[j][1], line=recs[i]["line"]))
     overloads(ck, pool)
     ck.sample(dict(aliases=[a for a in recs[0]["aliases"]], first_site=recs[1] if len(recs) > 1 else None))
-    ck.cov["rule"] = "populations of 1-3 functions over 7 alias patterns x 8 parameter typings (value/Referenz/generic), declaration order shuffled, every third population with an imported function; call sites for every pattern shape with arguments in the forms literal, negative literal, parenthesised expression, variable, parenthesised variable; each site is one resolution"
+    ck.cov["rule"] = "populations of 1-3 functions over 7 alias patterns x 10 parameter typings (Zahl/Text/Buchstabe, value/Referenz/generic), declaration order shuffled, every third population with an imported function; call sites for every pattern shape with arguments in the forms literal, negative literal, parenthesised expression, variable, parenthesised variable, list element, field, character of a Text; each site is one resolution"
     return ck.finish(exhaustive=False)
 
 
